@@ -169,7 +169,8 @@ use std::collections::BTreeSet;
 
 thread_local! {
     /// 0 first-only, 1 transitive mutex, 2 pairwise mutex, 3 powerset (<= 4 constraints),
-    /// 4 root labels for trivially true constraints + transitive mutex
+    /// 4 root labels for trivially true constraints + transitive mutex,
+    /// 5 first only, `Ne(a,b)` split into the siblings `Lt(a,b)` / `Lt(b,a)` with the same label
     pub static STRATEGY: RefCell<usize> = const { RefCell::new(0) };
 }
 
@@ -244,6 +245,18 @@ impl ToConstraintsTree<usize> for TPred {
             3 => {
                 sorted.truncate(4);
                 ConstraintTree::with_powerset(sorted)
+            }
+            5 => {
+                // one constraint index on several sibling nodes: Ne(a, b) = Lt(a, b) | Lt(b, a)
+                sorted.truncate(1);
+                let (c, i) = sorted.pop().unwrap();
+                if let (TPred::Ne, [a, b]) = (*c.predicate(), c.required_bindings()) {
+                    let lt1 = Constraint::try_new(TPred::Lt, vec![*a, *b]).unwrap();
+                    let lt2 = Constraint::try_new(TPred::Lt, vec![*b, *a]).unwrap();
+                    ConstraintTree::with_children([(lt1, vec![i]), (lt2, vec![i])])
+                } else {
+                    ConstraintTree::with_children([(c, vec![i])])
+                }
             }
             _ => {
                 // trivially true constraints label the root only; the others form a
